@@ -30,6 +30,10 @@ NoProbes   == {}
 UidsExh    == {200, 400}
 UidsDeep   == {200, 400}
 UidsOwn    == {32}
+TrIP       == {"ip"}
+TrBoth     == {"ip", "scion"}
+ScmpAll    == {"unreach", "echorep", "param"}
+ScmpNone   == {}
 \* size facts the text of the property relies on (evaluated once by TLC)
 ASSUME ReqSize(PoolMax) = NtpLen + UidField + CookieField + AuthField(0)
 ASSUME \A p \in 1 .. PoolMax : ReqSize(p) = RespSize(1 + PoolMax - p)   \* placeholders reserve exactly the reply's room
